@@ -13,7 +13,7 @@ import e2e
 import impl
 import progspace
 
-LEAN_TARGETS = ["CM.Props.Lift", "CM.Props.C16"]
+LEAN_TARGETS = ["CM.Props.Lift", "CM.Props.C16", "CM.Props.Prec"]
 THEOREMS = [
     "CM.Pipeline.run_preserves",
     "CM.Pipeline.C01_run_preserves_parse",
@@ -23,6 +23,13 @@ THEOREMS = [
     "CM.Args.C01_replaceArgs_wf",
     "CM.Args.C01_addArg_wf",
     "CM.Args.cls_replaceArgs",
+    "CM.Args.C01_addArgToCall_wf",
+    "CM.Args.C01_updateArgTarget_wf",
+    "CM.Args.C01_addArg_old_bare_generator",
+    "CM.Prec.C08_combine_preserves_wp",
+    "CM.Prec.C08_invert_preserves_wp",
+    "CM.Prec.C08_walrus_preserves_wp",
+    "CM.Prec.C01_walrus_old_bare_tuple",
 ]
 RULE = (
     "argument editor: generated call argument lists (positional / keyword / * / ** in legal and illegal orders) x edit specifications "
@@ -71,8 +78,10 @@ def parses(text: str) -> str | None:
 def corr(ctx):
     for rq, im, ans in argscorr.corr(ctx):
         # property-level oracle for the mechanism: a well-formed call stays well-formed
-        if ans["wf_in"] and not ans["wf_out"]:
-            ctx.fail({"kind": "args-ill-formed", "op": rq["op"]}, f"{im['src']} -> {im['rendered']} is no longer a valid call", {"request": rq, "impl": im})
+        # (for replace_args the call the codemods build is update_arg_target(replace_args(..)): that one is judged)
+        out_ok = ans.get("wf_updated", ans["wf_out"])
+        if ans["wf_in"] and not out_ok:
+            ctx.fail({"kind": "args-ill-formed", "op": rq["op"]}, f"{im['src']} -> {im.get('rendered_updated', im['rendered'])} is no longer a valid call", {"request": rq, "impl": im})
 
 
 def seq_case(case):
@@ -118,6 +127,8 @@ def search(ctx):
             if not changed:
                 continue
             got = parses(rec["after"])
+            if rec.get("before_compiles") and rec.get("after_compiles") is False:
+                got = None      # the bytes on disk (coding cookie honoured) are no longer a Python file
             if got is None or (lvl == "compile" and got != "compile"):
                 variant = name.split("_", 1)[1] if "_" in name else name
                 ctx.fail({"kind": "rewritten-file-does-not-parse", "codemod": cid}, f"{cid} on variant {variant}: the rewritten file no longer {'compiles' if lvl == 'compile' else 'parses'}",
